@@ -187,7 +187,8 @@ CHECKS = {
              "gradient; after each in-place weight update the quantized weight of the next forward must be within one step "
              "of the new float weight; a training history keeps one optimizer created after quantize(), applies checkpoint "
              "reloads / moves / mode switches between steps, and a held step must move the module weight by -lr x the "
-             "gradient just checked. Every case also checks the tensor-level straight-through identity: float leaf -> "
+             "gradient just checked; backward must leave the upstream gradient, the input and the parameters unchanged; "
+             "inputs of 256-3000 rows exercise long weight-gradient sums. Every case also checks the tensor-level straight-through identity: float leaf -> "
              "quantize_weight / quantize_activation -> dequantize -> backward(G) must leave exactly G (mapped through the "
              "views) in the leaf's gradient.",
         note="The upstream gradient is applied to out.dequantize() when activations are quantized. Gradient tolerances "
